@@ -15,7 +15,7 @@ Cfg == [BaseCfg EXCEPT !.network = "ConfNet", !.motd = "configured: motd", !.adm
           !.users = << [name |-> "reg1", nick |-> "reg1", pass |-> <<"userpass">>, mask |-> <<"*!*@127.0.0.2">>],
                        [name |-> "Reg2", nick |-> "Reg2", pass |-> <<"userpass">>, mask |-> <<>>] >>,
           !.operators = << [name |-> "god", pass |-> "godpass", mask |-> <<"*!*@127.0.0.1">>] >>,
-          !.channels = << [ChanCfg("#conf") EXCEPT !.topic = <<"configured topic">>, !.key = <<"ckey">>, !.flags = {"t", "n"}, !.o = {"alice"}, !.v = {"bob"}] >>]
+          !.channels = << [ChanCfg("#conf") EXCEPT !.topic = <<"configured topic">>, !.key = <<"ckey">>, !.flags = {"t", "n"}, !.q = {"alice"}, !.o = {"alice"}, !.h = {"bob"}, !.v = {"bob", "alice"}] >>]
 Pre == << St(A, "!open", <<>>), St(A, "PASS", <<<<"srvpass">>>>), St(A, "NICK", <<<<"alice">>>>), St(A, "USER", <<<<"u1">>, <<"Real u1">>>>),
           St(B, "!open", <<>>), St(B, "NICK", <<<<"bob">>>>), St(C, "!open", <<>>), St(C, "NICK", <<<<"carol">>>>), St(C, "PASS", <<<<"srvpass">>>>) >>
 Acts == { St(B, "PASS", <<<<"userpass">>>>), St(B, "PASS", <<<<"srvpass">>>>), St(B, "USER", <<<<"reg1">>, <<"R">>>>), St(B, "USER", <<<<"u2">>, <<"R">>>>),
